@@ -31,10 +31,11 @@ ssize_t getrandom(void *buf, size_t len, unsigned int flags) {
 
 /* ---- I/O fault injection (all off unless S4SIM_IOFAULT is set) -----------------------------------
  * S4SIM_IOFAULT = "key=value;key=value;..." with
- *   sw=<seed>        short writes on stdout and stderr: a write of n>1 bytes is cut to 1..n-1 bytes in 3 of 4 calls
+ *   sw=<seed>        short writes on stdout, stderr and files under $TMPDIR: a write of n>1 bytes is cut to 1..n-1 bytes in 3 of 4 calls
  *                    (a pure function of seed and the call number)
  *   epipe=<N>        stdout accepts N bytes in total, then every write fails with EPIPE (the reader went away)
  *   enospc=<N>       files under $TMPDIR accept N bytes in total, then every write fails with ENOSPC (disk full)
+ *   sr=<seed>        short reads of regular files under the working directory (inputs, extracted copies)
  *   eio=<N>          regular files under the working directory (the inputs and the extracted temporary copies; not
  *                    the simulator's own .sim/ files) deliver N bytes in total, then every read fails with EIO
  * Counting is per process; with the baton scheduler one thread runs at a time, so the byte at which a
@@ -44,7 +45,8 @@ ssize_t getrandom(void *buf, size_t len, unsigned int flags) {
 #include <sys/uio.h>
 
 static int io_init_done;
-static long long io_sw_seed = -1, io_epipe = -1, io_enospc = -1, io_eio = -1;
+static long long io_sw_seed = -1, io_epipe = -1, io_enospc = -1, io_eio = -1, io_sr_seed = -1;
+static unsigned long long io_sr_calls;
 static unsigned long long io_read_bytes;
 static char io_cwd[512];
 static unsigned long long io_sw_calls, io_out_bytes, io_tmp_bytes;
@@ -59,6 +61,7 @@ static void io_init(void) {
         if ((p = strstr(e, "epipe="))) io_epipe = strtoll(p + 6, 0, 10);
         if ((p = strstr(e, "enospc="))) io_enospc = strtoll(p + 7, 0, 10);
         if ((p = strstr(e, "eio="))) io_eio = strtoll(p + 4, 0, 10);
+        if ((p = strstr(e, "sr="))) io_sr_seed = strtoll(p + 3, 0, 10);
         if (!getcwd(io_cwd, sizeof io_cwd - 1)) io_cwd[0] = 0;
         const char *t = getenv("TMPDIR");
         if (t) { strncpy(io_tmpdir, t, sizeof io_tmpdir - 1); }
@@ -104,6 +107,12 @@ ssize_t write(int fd, const void *buf, size_t n) {
         if (w > 0) io_out_bytes += (unsigned long long)w;
         return w;
     }
+    if (fd > 2 && io_sw_seed >= 0 && io_enospc < 0 && n > 1 && io_is_tmp(fd)) {
+        /* the extracted temporary copies: short writes only */
+        uint64_t r = io_mix((uint64_t)io_sw_seed + 0x9E3779B97F4A7C15ULL * (++io_sw_calls));
+        if ((r & 3) != 0) n = 1 + (size_t)((r >> 8) % (n - 1));
+        return syscall(SYS_write, fd, buf, n);
+    }
     if (fd > 2 && io_enospc >= 0 && io_is_tmp(fd)) {
         if (io_tmp_bytes >= (unsigned long long)io_enospc && n > 0) { errno = ENOSPC; return -1; }
         if (n > (unsigned long long)io_enospc - io_tmp_bytes) n = (size_t)((unsigned long long)io_enospc - io_tmp_bytes);
@@ -116,7 +125,7 @@ ssize_t write(int fd, const void *buf, size_t n) {
 
 ssize_t writev(int fd, const struct iovec *iov, int cnt) {
     io_init();
-    if ((fd == 1 && (io_sw_seed >= 0 || io_epipe >= 0)) || (fd == 2 && io_sw_seed >= 0) || (fd > 2 && io_enospc >= 0 && io_is_tmp(fd))) {
+    if ((fd == 1 && (io_sw_seed >= 0 || io_epipe >= 0)) || (fd == 2 && io_sw_seed >= 0) || (fd > 2 && (io_enospc >= 0 || io_sw_seed >= 0) && io_is_tmp(fd))) {
         /* a vectored write is allowed to transfer only part of its buffers: hand over the first non-empty one */
         for (int i = 0; i < cnt; i++)
             if (iov[i].iov_len) return write(fd, iov[i].iov_base, iov[i].iov_len);
@@ -146,6 +155,11 @@ ssize_t read(int fd, void *buf, size_t n) {
         ssize_t r = syscall(SYS_read, fd, buf, n);
         if (r > 0) io_read_bytes += (unsigned long long)r;
         return r;
+    }
+    if (fd > 2 && io_sr_seed >= 0 && n > 1 && io_is_input(fd)) {
+        /* short reads: 1..n-1 bytes in 3 of 4 calls (legal for read(2); a reader must use the count it gets) */
+        uint64_t r = io_mix((uint64_t)io_sr_seed + 0x9E3779B97F4A7C15ULL * (++io_sr_calls));
+        if ((r & 3) != 0) n = 1 + (size_t)((r >> 8) % (n - 1));
     }
     return syscall(SYS_read, fd, buf, n);
 }
